@@ -9,6 +9,7 @@ CONSTANTS
   AllowEmptyLeftover = TRUE
   CombinerClearsQueueOnFailedFlush = TRUE
   Hash <- HashId
+  ReaderReportsHunks = TRUE
   GcStopsOnUnreadableHunk = TRUE
 INVARIANTS Inv_Format Inv_NoDangling Inv_SnapRestores Inv_RecordedBytes Inv_CompleteSuccess Inv_SkippedReported Inv_UnchangedStoresNothing Inv_GcExact
 PROPERTIES Prop_WriteOnce
